@@ -187,7 +187,7 @@ def _mknode(kind, nid):
     return sx.mod("canopen.node.local").LocalNode(nid, _node_od())
 
 
-def node_replace(old_kind, action, nid, extra=0, twice=0):
+def node_replace(old_kind, action, nid, extra=0, twice=0, appunsub=0):
     """after a node is removed or replaced none of the old node's handlers sees another frame
     (extra: the remote node has an additional SDO channel, added before (1) or after (2) it joined the
     network; twice: the node was associated with the network twice)"""
@@ -244,12 +244,27 @@ def node_replace(old_kind, action, nid, extra=0, twice=0):
         sx.prove(old.has_network(), "a node added twice lost its network", "C10/node/%s-same/network" % old_kind)
         sx.reach("node-same")
         return
-    if action == "delete":
-        del net[nid]
-    else:
-        new = _mknode(action, nid)
-        net.add_node(new)
     tag = "C10/node/%s-%s" % (old_kind, action)
+    if appunsub:
+        # the application has already taken one of the node's own handlers off the network itself; a removal that
+        # goes through after that (it may also be refused: then nothing is demanded) still detaches all the others
+        if old_kind == "remote":
+            net.unsubscribe(0x580 + nid, old.sdo.on_response)
+        else:
+            net.unsubscribe(0x600 + nid, old.sdo.on_request)
+        tag += "/app-unsubscribed"
+    try:
+        if action == "delete":
+            del net[nid]
+        else:
+            new = _mknode(action, nid)
+            net.add_node(new)
+    except Exception as e:
+        if not appunsub:
+            raise
+        sx.observe("removal_exc", C.exc_name(e))
+        sx.reach("node-removal-refused")
+        return
     old_state = old.nmt._state
     try:
         net.notify(0x580 + nid, sx.fresh_bytes("sdo", 8), 1.0)
@@ -484,6 +499,7 @@ def jobs(tier):
             for nid in (1, 2, 127):
                 out.append(dict(func="node_replace", params=dict(old_kind=old, action=action, nid=nid)))
             out.append(dict(func="node_replace", params=dict(old_kind=old, action=action, nid=5, twice=1)))
+            out.append(dict(func="node_replace", params=dict(old_kind=old, action=action, nid=6, appunsub=1)))
             if old == "remote":
                 for extra in (1, 2):
                     out.append(dict(func="node_replace", params=dict(old_kind=old, action=action, nid=3, extra=extra)))
